@@ -58,6 +58,12 @@ Theorem C07_not_idle_forever : forall s, reachable s -> all_done s = true -> ds 
   alive (cons s) = true -> In Marker (q s).
 Proof. intros s R. apply drained_not_idle, reachable_inv, R. Qed.
 
+(* the executable oracle evaluated on implementation logs accepts every log the model can
+   produce, with the completeness flag as the model computes it: no false alarm is possible
+   for model-conforming behaviour *)
+Theorem C07_oracle_sound : forall s, reachable s -> check_C07 (complete s) (log s) = true.
+Proof. exact check_C07_sound. Qed.
+
 (* ---- statement pins ---- *)
 Check (C07_marker_unique : forall s, reachable s -> markers (hist s) <= 1).
 Check (C07_idempotent : forall s, reachable s -> In Marker (hist s) ->
@@ -101,3 +107,4 @@ Print Assumptions C07_marker_eventually.
 Print Assumptions C07_idempotent.
 Print Assumptions C07_drained_once.
 Print Assumptions C07_not_idle_forever.
+Print Assumptions C07_oracle_sound.
